@@ -53,6 +53,16 @@ CLAIMED.update({
         ref="DESIGN.md §3 C03", tech="TLA+ IprStrings/Arena: exhaustive TLC behaviours replayed, I-level boundary generation, trace validation (also under ASan)",
         note="Trusted: TLC, the reserved-word list in spec/IprKnownWords.tla (a lower bound), harness/strings.cxx, ASan for "
              "invalidation. Words >64 bytes are compared by length + FNV-1a/64. Equal-hash bucket chains are not constructible."),
+    "C07": dict(
+        text="IprScopes.tla: a scope is the sequence of declarations entered; elements, product type, lookup, selection, master, "
+             "declaration-set and position are derived operators. TLC enumerates all admissible declaration sequences of four "
+             "jobs (var/fundecl depth 4-5; seven declaration kinds; two scopes; parameter list + enumeration + base list) and "
+             "prints the full predicted observation of the scope after every step (including lookups of undeclared names and "
+             "selection by every type); each behaviour is replayed and compared. Random histories over 12 names x 6 types in "
+             "five scopes are validated by the trace spec with sampled lookups.",
+        ref="DESIGN.md §3 C07", tech="TLA+ IprScopes: exhaustive TLC behaviours with derived observations replayed + trace validation",
+        note="Trusted: TLC, the derived operators of spec/IprScopes.tla, harness/scopes.cxx (public interface only; scopes reached "
+             "through impl members where the interface has no route). Handler regions are covered under C12."),
     "C08": dict(
         text="RBTree.tla transcribes descend/insert/fix-up/rotations (I-level) and states the red-black search-tree "
              "predicates (R-level). TLC checks I=>R for all insertion orders over 7 (quick) / 9 (thorough) keys, enumerates "
